@@ -20,6 +20,12 @@ THEOREMS_BY_PROP = {
     "C16": [],
     "C17": [],
 }
+# Props/C05Iter.lean (namespace TDV.MP): delta_at_yield / snapshot_fields for iterable datasets; the unrestricted
+# delta_at_yield statement is refuted (witness c05i: W=3, P=1, interval 8, shards 2/0/2), tied to the code by the MP K-T leg
+LEAN_MODULES_C05ITER = ["TorchDataVerif.Props.C05Iter"]
+_C05ITER = [T + n for n in ("delta_at_yield_iter", "delta_at_yield_iter_partial", "delta_at_yield_iter_false",
+                            "snapshot_fields_iter", "snapshot_fields_iter_det", "c05iA_state", "c05iB_state")]
+C05ITER_BY_PROP = {"C05": list(_C05ITER), "C07": [T + "delta_at_yield_iter", T + "delta_at_yield_iter_partial"]}
 try:
     from . import mpu_parts as _mpu
     LEAN_MODULES_MPU = list(_mpu.LEAN_MODULES)
@@ -51,6 +57,8 @@ def parts(prop: str):
         return mp_trace.replay_kt(payload.get("input", payload.get("case")))
 
     out = [_compose.Part("mp_kt", run, replay, theorems=ths, modules=LEAN_MODULES)]
+    if C05ITER_BY_PROP.get(prop):
+        out.append(_compose.Part("c05iter", lambda ctx: None, None, theorems=C05ITER_BY_PROP[prop], modules=LEAN_MODULES_C05ITER))
     if MPU_BY_PROP.get(prop):
         out.append(_compose.Part("mpu", lambda ctx: None, None, theorems=MPU_BY_PROP[prop], modules=LEAN_MODULES_MPU))
     return out
